@@ -576,7 +576,7 @@ func driveClient(run *sessionRun, pipelined bool, T time.Duration, r *rand.Rand)
 				full := encodeReq(k, &sReq{maj: 1, min: 4, bc: 1, writeOk: true, items: []sItem{{op: opActivate, payload: 0}}})
 				_, _ = c.Write(full[:len(full)-5])
 				closeAtEnd = true
-			case "extra-item", "bad-type", "bad-tag", "mutated", "hostile-length", "cred-type", "cut-tail", "any-tag":
+			case "extra-item", "bad-type", "bad-tag", "mutated", "hostile-length", "cred-type", "cut-tail", "any-tag", "bad-bool":
 				_, _ = c.Write(malformedRequest(k, a.how))
 				if a.how == "hostile-length" {
 					closeAtEnd = true // the announced bytes never come: the peer leaves (otherwise a server without ReadTimeout rightly waits)
@@ -810,7 +810,7 @@ func genScript(r *rand.Rand, common sCfg, saConfigured bool, o scriptOpts) (sCfg
 			}
 			arrs = append(arrs, sArr{kind: 'R', req: q})
 		case x < 88 || (last && x < 50):
-			how := []string{"garbage", "wrongtype", "truncated-close", "extra-item", "bad-type", "bad-tag", "mutated", "hostile-length", "cred-type", "cut-tail", "cred-type", "cut-tail", "any-tag", "any-tag"}[r.Intn(14)]
+			how := []string{"garbage", "wrongtype", "truncated-close", "extra-item", "bad-type", "bad-tag", "mutated", "hostile-length", "cred-type", "cut-tail", "cred-type", "cut-tail", "any-tag", "any-tag", "bad-bool", "bad-bool"}[r.Intn(16)]
 			if o.allowStall && cfg.rt && r.Intn(3) == 0 {
 				how = "stall"
 			}
@@ -837,6 +837,22 @@ func malformedRequest(k int, how string) []byte {
 	setLen := func(b []byte, off int, l uint32) { binary.BigEndian.PutUint32(b[off+4:], l) }
 	extra := []byte{0x42, 0x00, 0x6a, 0x02, 0, 0, 0, 4, 0, 0, 0, 7, 0, 0, 0, 0}
 	switch how {
+	case "bad-bool":
+		// an otherwise valid request with a Boolean (Batch Order Option / Asynchronous Indicator) whose eight value bytes are
+		// neither 0 nor 1 as a whole, although their low half is: the Integer layout of 1, a set top bit, garbage in front of 01
+		var rb bytes.Buffer
+		rq := kmip.Request{Header: kmip.RequestHeader{Version: kmip.ProtocolVersion{Major: 1, Minor: 4}, BatchOrderOption: k%2 == 0, AsynchronousIndicator: k%2 == 1, BatchCount: 1},
+			BatchItems: []kmip.RequestBatchItem{{Operation: kmip.Enum(opActivate), RequestPayload: reqPayload(opActivate, 0)}}}
+		if err := kmip.NewEncoder(&rb).Encode(&rq); err != nil {
+			panic("harness: cannot encode bad-bool base request: " + err.Error())
+		}
+		b := rb.Bytes()
+		for _, n := range mut.All(mut.Parse(b)) {
+			if n.Typ == 6 && n.Len == 8 {
+				copy(b[n.Off+8:], [][]byte{{0, 0, 0, 1, 0, 0, 0, 0}, {0x80, 0, 0, 0, 0, 0, 0, 1}, {0, 0, 0, 1, 0, 0, 0, 1}, {1, 2, 3, 4, 0, 0, 0, 0}}[(k/2)%4])
+			}
+		}
+		return b
 	case "any-tag":
 		// an otherwise valid request in which one item's tag is ff ff ff - the library's INTERNAL marker for "any tag" in a
 		// schema (kmip:"-"), which no peer may use to pass for the Request Message, its header, an item, the operation ...
